@@ -301,3 +301,762 @@ def classify(fn, tree, verdict):
     if dead and reason in ("TooManyStates", "StackUnderflow", "PopBelowLocals", "LocalOutOfRange", "FuelExhausted"):
         return "break_dead_pops"
     return None
+
+
+# ------------------------------------------------------------------------------------------------
+# random program generator over the whole statement grammar (size bounded; every choice from ctx.rng)
+
+class Var:
+    __slots__ = ("name", "fdepth", "in_try", "is_global")
+
+    def __init__(self, name, fdepth, in_try, is_global):
+        self.name, self.fdepth, self.in_try, self.is_global = name, fdepth, in_try, is_global
+
+
+class Gen:
+    """profile 'clean': avoids the constructs with OPEN (unfixed) defects - finally, early exits (break /
+    continue / return) from try / catch, closures over variables declared inside a try statement - so that
+    after the byte-level repairs of the classes being fixed every function must verify;
+    profile 'full': the whole grammar."""
+
+    BINOPS = ["+", "-", "*", "/", "%", "==", "!=", "<", "<=", ">", ">=", "&", "|", "^", "<<", ">>", "&&", "||"]
+
+    def __init__(self, rng, profile="clean", size=30, maxdepth=5):
+        self.rng = rng
+        self.profile = profile
+        self.budget = size
+        self.maxdepth = maxdepth
+        self.n = 0
+        self.scopes = [[]]          # list of lists of Var (innermost last)
+        self.fdepth = 0             # function nesting depth
+        self.loop = [0]             # per function: loop nesting depth
+        self.try_body = [0]         # per function: nesting of try bodies / catch / finally blocks
+        self.in_class = []          # stack of dicts {has_super, kind}
+        self.fkind = ["script"]
+        self.features = set()
+
+    # -- names and scopes
+    def fresh(self, p="v"):
+        self.n += 1
+        return "%s%d" % (p, self.n)
+
+    def declare(self, name):
+        is_global = (len(self.scopes) == 1 and self.fdepth == 0)
+        v = Var(name, self.fdepth, self.try_body[-1] > 0, is_global)
+        self.scopes[-1].append(v)
+        return v
+
+    def visible(self):
+        res = []
+        for sc in self.scopes:
+            for v in sc:
+                if self.profile == "clean" and v.in_try and v.fdepth != self.fdepth and not v.is_global:
+                    continue
+                res.append(v)
+        return res
+
+    def pick_var(self):
+        vs = self.visible()
+        if not vs:
+            return None
+        r = self.rng.random()
+        if r < 0.45:
+            outer = [v for v in vs if v.fdepth < self.fdepth and not v.is_global]
+            if outer:
+                self.features.add("capture")
+                if any(v.fdepth < self.fdepth - 1 for v in outer):
+                    self.features.add("capture_deep")
+                return self.rng.choice(outer)
+        return self.rng.choice(vs[-8:]) if self.rng.random() < 0.6 else self.rng.choice(vs)
+
+    # -- expressions
+    def atom(self):
+        r = self.rng.random()
+        if r < 0.45:
+            v = self.pick_var()
+            if v:
+                return v.name
+        if r < 0.6:
+            return str(self.rng.choice([0, 1, 2, 3, 7, 10, 255, 256, 0.5, 1e3]))
+        if r < 0.7:
+            return self.rng.choice(['"s"', '"ab"', '""', '"x y"'])
+        if r < 0.8:
+            return self.rng.choice(["true", "false", "nil"])
+        if r < 0.86 and self.in_class and self.fkind[-1] in ("method", "init"):
+            return "self"
+        return str(self.rng.randint(0, 99))
+
+    def expr(self, d=0):
+        rng = self.rng
+        if d >= 3 or rng.random() < 0.3:
+            return self.atom()
+        k = rng.random()
+        if k < 0.25:
+            op = rng.choice(self.BINOPS)
+            if op in ("&&", "||"):
+                self.features.add("logic")
+            return "%s %s %s" % (self.expr(d + 1), op, self.expr(d + 1))
+        if k < 0.32:
+            return "%s%s" % (rng.choice(["-", "!", "~"]), self.atom())
+        if k < 0.42:
+            return "(%s)" % self.expr(d + 1)
+        if k < 0.55:
+            f = self.atom() if rng.random() < 0.7 else "(%s)" % self.expr(d + 1)
+            if not re.match(r"^[A-Za-z_(]", f):
+                f = "print"
+            return "%s(%s)" % (f, ", ".join(self.expr(d + 1) for _ in range(rng.randint(0, 3))))
+        if k < 0.63:
+            return "%s.%s(%s)" % (self.recv(), rng.choice(["m", "len", "push", "next", "go"]),
+                                  ", ".join(self.expr(d + 1) for _ in range(rng.randint(0, 2))))
+        if k < 0.68:
+            return "%s.%s" % (self.recv(), rng.choice(["p", "q", "len"]))
+        if k < 0.73:
+            return "%s[%s]" % (self.recv(), self.expr(d + 1))
+        if k < 0.79:
+            return "[%s]" % ", ".join(self.expr(d + 1) for _ in range(rng.randint(0, 4)))
+        if k < 0.83:
+            n = rng.randint(0, 3)
+            if n == 1:
+                return "(%s,)" % self.expr(d + 1)
+            return "(%s)" % ", ".join(self.expr(d + 1) for _ in range(n)) if n != 0 else "()"
+        if k < 0.87:
+            return "({%s})" % ", ".join("%s: %s" % (self.atom(), self.expr(d + 1)) for _ in range(rng.randint(0, 3)))
+        if k < 0.93:
+            self.features.add("interp")
+            parts = []
+            for _ in range(rng.randint(1, 3)):
+                if rng.random() < 0.6:
+                    parts.append(rng.choice(["a", " b ", "c:"]))
+                inner = self.expr(d + 2) if rng.random() < 0.7 else self.atom()
+                if '"' in inner and rng.random() < 0.5:
+                    inner = self.atom() if '"' not in self.atom() else "1"
+                parts.append("${%s}" % inner)
+            if rng.random() < 0.5:
+                parts.append("z")
+            return '"%s"' % "".join(parts)
+        if k < 0.96:
+            return "%s..%s" % (self.atom(), self.atom())
+        return self.lambda_expr(d)
+
+    def recv(self):
+        a = self.atom()
+        if not re.match(r"^[A-Za-z_]", a) or a in ("true", "false", "nil"):
+            return "(%s)" % a
+        return a
+
+    def lambda_expr(self, d):
+        self.features.add("lambda")
+        params = [self.fresh("p") for _ in range(self.rng.randint(0, 3))]
+        self.enter_fn("lambda", params)
+        if self.rng.random() < 0.5 or self.budget <= 0:
+            body = self.expr(d + 1)
+            if body.startswith("{"):
+                body = "(%s)" % body
+            src = "|%s| %s" % (", ".join(params), body)
+        else:
+            body = self.block_items(self.rng.randint(1, 3), 1)
+            src = "|%s| {\n%s\n}" % (", ".join(params), body)
+        self.leave_fn()
+        return "(%s)" % src
+
+    # -- functions
+    def enter_fn(self, kind, params):
+        self.fdepth += 1
+        self.loop.append(0)
+        self.try_body.append(0)
+        self.fkind.append(kind)
+        self.scopes.append([])
+        for p in params:
+            if p != "self":
+                self.declare(p)
+
+    def leave_fn(self):
+        self.scopes.pop()
+        self.fkind.pop()
+        self.try_body.pop()
+        self.loop.pop()
+        self.fdepth -= 1
+
+    def block_items(self, n, depth):
+        out = []
+        for _ in range(n):
+            out.append(self.statement(depth))
+        return "\n".join(out)
+
+    def block(self, n, depth):
+        self.scopes.append([])
+        body = self.block_items(n, depth)
+        self.scopes.pop()
+        return "{\n%s\n}" % body
+
+    def early_ok(self):
+        """may a break/continue/return be emitted here under the current profile?"""
+        return self.profile == "full" or self.try_body[-1] == 0
+
+    def statement(self, depth):
+        rng = self.rng
+        self.budget -= 1
+        small = depth >= self.maxdepth or self.budget <= 0
+        k = rng.random()
+        if small or k < 0.22:
+            return self.simple_statement()
+        n = rng.randint(1, 4)
+        if k < 0.32:
+            self.features.add("if")
+            s = "if %s %s" % (self.expr(1), self.block(n, depth + 1))
+            while rng.random() < 0.3:
+                s += " else if %s %s" % (self.expr(1), self.block(rng.randint(0, 2), depth + 1))
+            if rng.random() < 0.5:
+                s += " else %s" % self.block(rng.randint(0, 3), depth + 1)
+            return s
+        if k < 0.42:
+            self.features.add("while")
+            c = self.expr(1)
+            self.loop[-1] += 1
+            b = self.block(n, depth + 1)
+            self.loop[-1] -= 1
+            return "while %s %s" % (c, b)
+        if k < 0.52:
+            self.features.add("for")
+            it = rng.choice(["0..3", "[1, 2, 3]", self.expr(2)])
+            self.scopes.append([])
+            v = self.fresh("i")
+            self.declare(v)
+            self.loop[-1] += 1
+            b = self.block(n, depth + 1)
+            self.loop[-1] -= 1
+            self.scopes.pop()
+            return "for %s in %s %s" % (v, it, b)
+        if k < 0.60:
+            return self.block(n, depth + 1)
+        if k < 0.72:
+            self.features.add("fn")
+            name = self.fresh("f")
+            self.declare(name)
+            params = [self.fresh("p") for _ in range(rng.randint(0, 3))]
+            self.enter_fn("fn", params)
+            body = self.block_items(rng.randint(1, 5), depth + 1)
+            self.leave_fn()
+            return "fn %s(%s) {\n%s\n}" % (name, ", ".join(params), body)
+        if k < 0.86:
+            return self.try_statement(depth)
+        if k < 0.93:
+            return self.class_decl(depth)
+        return self.simple_statement()
+
+    def try_statement(self, depth):
+        rng = self.rng
+        self.features.add("try")
+        self.try_body[-1] += 1
+        body = self.block(rng.randint(0, 4), depth + 1)
+        have_catch = rng.random() < 0.75 or self.profile == "clean"
+        have_finally = self.profile == "full" and (not have_catch or rng.random() < 0.4)
+        s = "try %s" % body
+        if have_catch:
+            self.scopes.append([])
+            e = self.fresh("e")
+            self.declare(e)
+            s += " catch %s %s" % (e, self.block(rng.randint(0, 3), depth + 1))
+            self.scopes.pop()
+        if have_finally:
+            self.features.add("finally")
+            s += " finally %s" % self.block(rng.randint(0, 3), depth + 1)
+        self.try_body[-1] -= 1
+        return s
+
+    def class_decl(self, depth):
+        rng = self.rng
+        self.features.add("class")
+        name = self.fresh("K")
+        attrs = []
+        if rng.random() < 0.5:
+            attrs.append("constructor(new)")
+        base = None
+        cands = [v.name for v in self.visible() if v.name.startswith("K")]
+        if cands and rng.random() < 0.5:
+            base = rng.choice(cands)
+            attrs.append("derive(%s)" % base)
+        self.declare(name)
+        self.in_class.append({"has_super": base is not None})
+        members = []
+        for _ in range(rng.randint(0, 3)):
+            r = rng.random()
+            mname = self.fresh("m")
+            params = [self.fresh("p") for _ in range(rng.randint(0, 2))]
+            if r < 0.2:
+                self.enter_fn("static", params)
+                body = self.block_items(rng.randint(1, 3), depth + 2)
+                self.leave_fn()
+                members.append("#[static]\nfn %s(%s) {\n%s\n}" % (mname, ", ".join(params), body))
+            elif r < 0.35 and "constructor(new)" not in attrs and not any("#[constructor]" in m for m in members):
+                self.enter_fn("init", ["self"] + params)
+                body = self.block_items(rng.randint(1, 3), depth + 2)
+                self.leave_fn()
+                members.append("#[constructor]\nfn new(%s) {\n%s\n}" % (", ".join(["self"] + params), body))
+            else:
+                self.enter_fn("method", ["self"] + params)
+                body = self.block_items(rng.randint(1, 4), depth + 2)
+                self.leave_fn()
+                members.append("fn %s(%s) {\n%s\n}" % (mname, ", ".join(["self"] + params), body))
+        self.in_class.pop()
+        head = ("#[%s]\n" % ", ".join(attrs)) if attrs else ""
+        return "%sclass %s {\n%s\n}" % (head, name, "\n".join(members))
+
+    def simple_statement(self):
+        rng = self.rng
+        k = rng.random()
+        if k < 0.28:
+            name = self.fresh("v")
+            init = self.expr(0)
+            s = "var %s = %s;" % (name, init) if rng.random() < 0.9 else "var %s;" % name
+            self.declare(name)
+            return s
+        if k < 0.40:
+            v = self.pick_var()
+            if v:
+                op = rng.choice(["=", "=", "=", "+=", "-="])
+                rhs = self.expr(1) if op == "=" else self.atom()
+                return "%s %s %s;" % (v.name, op, rhs)
+        if k < 0.46:
+            return "%s.%s = %s;" % (self.recv(), rng.choice(["p", "q"]), self.expr(1))
+        if k < 0.50:
+            return "%s[%s] = %s;" % (self.recv(), self.atom(), self.expr(1))
+        if k < 0.62:
+            return "print(%s);" % self.expr(0)
+        if k < 0.70 and self.loop[-1] > 0 and self.early_ok():
+            self.features.add("break")
+            if self.try_body[-1] > 0:
+                self.features.add("break_in_try")
+            return "break;"
+        if k < 0.77 and self.loop[-1] > 0 and self.early_ok():
+            self.features.add("continue")
+            return "continue;"
+        if k < 0.87 and self.fkind[-1] != "script" and self.early_ok():
+            self.features.add("return")
+            if self.fkind[-1] == "init" or rng.random() < 0.2:
+                return "return;"
+            return "return %s;" % self.expr(1)
+        if k < 0.91:
+            self.features.add("throw")
+            return "throw %s;" % self.expr(1)
+        if k < 0.94 and self.in_class and self.in_class[-1]["has_super"] and self.fkind[-1] in ("method", "init"):
+            self.features.add("super")
+            return "super.%s(%s);" % (rng.choice(["m", "go"]), self.atom())
+        e = self.expr(0)
+        if not re.match(r"^[A-Za-z_(]", e) or e.startswith("({"):
+            e = "(%s)" % e
+        return "%s;" % e
+
+    def program(self):
+        out = []
+        while self.budget > 0:
+            out.append(self.statement(0))
+        return "\n".join(out)
+
+
+def gen_program(rng, profile, size=None):
+    g = Gen(rng, profile, size=size or rng.choice([8, 15, 25, 40, 60]))
+    src = g.program()
+    return src, sorted(g.features)
+
+
+# ------------------------------------------------------------------------------------------------
+# byte-level repairs mirroring the minimal source fixes of the classes that are being fixed
+# (used ONLY to decide whether a flagged function is fully explained by those classes)
+
+JUMPS = ("Jump", "JumpIfFalse", "JumpIfStopIter")
+
+
+def jump_targets(ins):
+    t = set()
+    for (q, nm, a, b, nx) in ins:
+        if nm in JUMPS:
+            t.add(nx + a)
+        elif nm == "Loop":
+            t.add(nx - a)
+        elif nm == "PushExcHandler":
+            t.add(nx + a)
+            t.add(nx + a + b)
+    return t
+
+
+def reassemble(fn, ins, delete=(), insert=None):
+    """delete: set of pcs of instructions to drop; insert: {pc: [opcode byte, ...]} one-byte instructions placed
+    before the instruction at pc.  Jump operands are recomputed so that every jump reaches the instruction it
+    reached before (a deleted target -> the next surviving instruction; an insertion point -> the first inserted
+    instruction).  Returns the new code bytes or None when a distance no longer fits."""
+    insert = insert or {}
+    code = fn.code
+    newpc = {}
+    items = []     # (old instr or None, raw bytes)
+    pos = 0
+    for i in ins:
+        q, nm, a, b, nx = i
+        first = pos
+        for byte in insert.get(q, []):
+            items.append((None, bytes([byte]), pos))
+            pos += 1
+        if q in delete:
+            newpc[q] = None
+            continue
+        newpc[q] = first
+        items.append((i, bytes(code[q:nx]), pos))
+        pos += nx - q
+    newpc[len(code)] = pos
+    # a deleted instruction maps to the next surviving position
+    last = pos
+    for i in reversed(ins):
+        if newpc[i[0]] is None:
+            newpc[i[0]] = last
+        else:
+            last = newpc[i[0]]
+    out = bytearray()
+    for (i, raw, p) in items:
+        if i is None:
+            out += raw
+            continue
+        q, nm, a, b, nx = i
+        nnx = p + (nx - q)
+        raw = bytearray(raw)
+        try:
+            if nm in JUMPS:
+                d = newpc[nx + a] - nnx
+                if not (0 <= d <= 0xFFFF):
+                    return None
+                raw[1], raw[2] = d & 255, d >> 8
+            elif nm == "Loop":
+                d = nnx - newpc[nx - a]
+                if not (0 <= d <= 0xFFFF):
+                    return None
+                raw[1], raw[2] = d & 255, d >> 8
+            elif nm == "PushExcHandler":
+                c = newpc[nx + a]
+                f_ = newpc[nx + a + b]
+                d1, d2 = c - nnx, f_ - c
+                if not (0 <= d1 <= 0xFFFF and 0 <= d2 <= 0xFFFF):
+                    return None
+                raw[1], raw[2], raw[3], raw[4] = d1 & 255, d1 >> 8, d2 & 255, d2 >> 8
+        except KeyError:
+            return None   # a jump into the middle of an instruction: not linear code
+        out += raw
+    return bytes(out)
+
+
+def catch_pop_sites(ins):
+    """PopExcHandler at the first instruction of a catch block (PushExcHandler with a non-empty catch part)"""
+    by_pc = {i[0]: i for i in ins}
+    sites = []
+    for (q, nm, a, b, nx) in ins:
+        if nm == "PushExcHandler" and b != 0:
+            c = nx + a
+            if c in by_pc and by_pc[c][1] == "PopExcHandler":
+                sites.append(c)
+    return sites
+
+
+def break_sites(ins):
+    """(pc of Jump, [pcs of the dead Pop/CloseUpvalue run right after it]) for forward jumps inside a loop"""
+    tg = jump_targets(ins)
+    loops = loops_of(ins)
+    res = []
+    for k, (q, nm, a, b, nx) in enumerate(ins):
+        if nm != "Jump" or not any(st <= q < lp for (st, lp, ex) in loops):
+            continue
+        run = []
+        j = k + 1
+        while j < len(ins) and ins[j][1] in ("Pop", "CloseUpvalue") and ins[j][0] not in tg:
+            run.append(ins[j][0])
+            j += 1
+        if run:
+            res.append((q, run))
+    return res
+
+
+def repair_variants(fn, tree, limit=48):
+    """-> list of (classes tuple, new code) ordered from the smallest repair"""
+    ins = listing(fn, tree)
+    if not ins or ins[-1][4] != len(fn.code):
+        return []
+    cs = catch_pop_sites(ins)
+    bs = break_sites(ins)
+    variants = []
+    code_of = {i[0]: fn.code[i[0]] for i in ins}
+
+    def build(use_c, ks):
+        delete = set(cs) if use_c else set()
+        insert = {}
+        for (q, run), k in zip(bs, ks):
+            if k:
+                moved = run[:k]
+                delete |= set(moved)
+                insert[q] = [code_of[m] for m in moved]
+        return reassemble(fn, ins, delete, insert)
+
+    if cs:
+        variants.append((("catch_pops_outer",), build(True, [0] * len(bs))))
+    if bs:
+        import itertools
+        ranges = [list(range(len(run), (len(run) + 1) // 2 - 1, -1)) for (q, run) in bs]
+        combos = list(itertools.islice(itertools.product(*ranges), limit))
+        for ks in combos:
+            variants.append((("break_dead_pops",), build(False, ks)))
+        if cs:
+            for ks in combos:
+                variants.append((("break_dead_pops", "catch_pops_outer"), build(True, ks)))
+    return [(c, code) for c, code in variants if code is not None]
+
+
+# ------------------------------------------------------------------------------------------------
+# syntactic recognition of the classes that stay open (on the possibly repaired bytes)
+
+def parse_verdict(s):
+    """'OK maxh=..' | 'NONUNIQUE pc=.. .. pcs=a,b hs=..' | 'REJECT pc=.. reason=.. lenient=(..)' -> dict"""
+    d = {"raw": s}
+    main = s.split(" lenient=(")[0]
+    f = main.split(" ")
+    d["kind"] = f[0]
+    for kv in f[1:]:
+        if "=" in kv:
+            k, v = kv.split("=", 1)
+            d[k] = v
+    for k in ("pc", "maxh", "mh", "mc", "st", "n"):
+        if k in d:
+            d[k] = int(d[k])
+    if "pcs" in d:
+        d["pcs"] = sorted(int(x) for x in d["pcs"].split(",") if x)
+        d["pc"] = d["pcs"][0]
+    if " lenient=(" in s:
+        d["lenient"] = s.split(" lenient=(", 1)[1][:-1]
+    return d
+
+
+def residual_class(code, fn, tree, v):
+    """known OPEN class of verdict v (dict) for the function bytes `code`, or None"""
+    f2 = Fn(fn.idx, fn.arity, fn.upv, fn.name, code)
+    f2.consts = fn.consts
+    ins = listing(f2, tree)
+    by_pc = {i[0]: k for k, i in enumerate(ins)}
+    regs = try_regions(ins)
+    loops = loops_of(ins)
+    kind, pc, reason = v["kind"], v.get("pc", 0), v.get("reason")
+
+    def bodies_at(q):
+        return [r for r in regs if r["body"] <= q < r["catch"] - 4]
+
+    def handlers_live_at(q):
+        """try statements whose handler is (statically) pushed at q: q in the try body"""
+        return [r for r in regs if r["body"] <= q < r["catch"] - 4]
+
+    early = set()
+    jf_depths = []
+    for (q, nm, a, b, nx) in ins:
+        if nm == "Jump":
+            tgt = nx + a
+            for r in bodies_at(q):
+                if tgt > r["catch"] and any(st <= r["push"] and q < lp < tgt for (st, lp, ex) in loops):
+                    early.add("break_in_try")
+        elif nm == "Loop":
+            tgt = nx - a
+            for r in bodies_at(q):
+                if tgt <= r["push"]:
+                    early.add("continue_in_try")
+        elif nm == "JumpFinally":
+            jf_depths.append((q, len(bodies_at(q))))
+    # a break/continue inside a catch or finally block of a try nested in another try body leaves the outer handler
+    finally_only = [r for r in regs if not r["has_catch"]]
+    with_catch = [r for r in regs if r["has_catch"]]
+    closure_in_try = any(nm == "Closure" and (nx - q) > 3 and any(r["body"] <= q for r in regs) for (q, nm, a, b, nx) in ins)
+    loop_reasons = ("TooManyStates", "FuelExhausted")
+    at = ins[by_pc[pc]][1] if pc in by_pc else None
+    if at == "EndFinally" and reason in ("HandlerAboveStack", "StackUnderflow") and len(regs) >= 2:
+        return "endfinally_rethrow_on_normal_path"
+    if early and (kind == "NONUNIQUE" or reason in ("ReturnWithHandlers", "HandlerAboveStack") + loop_reasons):
+        return sorted(early)[0]
+    if reason == "PopCaptured" and closure_in_try:
+        return "unwind_open_upvalue"
+    if reason == "ReturnPending" and jf_depths:
+        return "return_in_try_falls_through"
+    if reason in ("ReturnWithHandlers", "HandlerAboveStack") and any(d >= 2 for _, d in jf_depths):
+        return "return_through_nested_try"
+    if finally_only:
+        first = min(r["fin"] for r in finally_only)
+        in_loop = any(st <= r["push"] < lp for r in finally_only for (st, lp, ex) in loops)
+        if kind == "NONUNIQUE" and (pc >= first or in_loop):
+            return "finally_two_heights"
+        if reason in loop_reasons and in_loop:
+            return "finally_two_heights"
+        if reason in ("LocalOutOfRange", "StackUnderflow", "PopBelowLocals", "HandlerAboveStack", "ReturnWithHandlers",
+                      "PopCaptured") and pc >= first:
+            return "finally_two_heights"
+    return None
+
+
+# ------------------------------------------------------------------------------------------------
+# pipeline: sources -> real compiler -> wire -> proved verifier -> classification
+
+def wire_with(tree, replace=None):
+    """wire string with the code of some functions (by depth-first index) replaced"""
+    fns, ren = bfs_order(tree)
+    parts = []
+    for fn in fns:
+        code = replace.get(fn.idx, fn.code) if replace else fn.code
+        cs = "".join(("f%d." % ren[int(c[1:])]) if c[0] == "f" else (c[0] if c[0] in "sn" else "o") for c in fn.consts)
+        parts.append("%d,%d:%s:%s" % (fn.arity, fn.upv, code.hex(), cs))
+    return "|".join(parts), fns, ren
+
+
+def load_findings():
+    try:
+        with open(FINDINGS_PATH) as fh:
+            return {e["class"]: e for e in json.load(fh) if e.get("property") == "C04"}
+    except Exception:
+        return {}
+
+
+def coq_reports(terms_sizes, tag):
+    """terms_sizes: list of (term, size in bytes).  Big terms get a coqc process each, the small ones are spread
+    evenly; order preserved."""
+    from concurrent.futures import ThreadPoolExecutor
+    big = [i for i, (_, sz) in enumerate(terms_sizes) if sz >= 20000]
+    small = [i for i, (_, sz) in enumerate(terms_sizes) if sz < 20000]
+    out = [None] * len(terms_sizes)
+
+    def run_big():
+        return yvlib.coq_eval(["YV:VerifierRun"], [terms_sizes[i][0] for i in big], shard_size=1, tag=tag + "_big")
+
+    def run_small():
+        n = len(small)
+        shard = max(1, min(150, (n + yvlib.NPROC - 1) // yvlib.NPROC))
+        return yvlib.coq_eval(["YV:VerifierRun"], [terms_sizes[i][0] for i in small], shard_size=shard, tag=tag + "_small")
+
+    with ThreadPoolExecutor(max_workers=2) as ex:
+        fb = ex.submit(run_big)
+        fs = ex.submit(run_small)
+        for i, v in zip(big, fb.result()):
+            out[i] = v
+        for i, v in zip(small, fs.result()):
+            out[i] = v
+    return out
+
+
+class Item:
+    """one compiled function tree with its provenance"""
+    __slots__ = ("label", "src", "tree", "group", "fns", "ren", "head", "verdicts", "flags", "meta")
+
+    def __init__(self, label, src, tree, group, meta=None):
+        self.label, self.src, self.tree, self.group, self.meta = label, src, tree, group, meta
+        self.fns = self.ren = self.head = None
+        self.verdicts = []
+        self.flags = []     # (bfs index, Fn, verdict dict, classes tuple | None)
+
+
+def compile_sources(binary, sources, timeout_ms=60000):
+    """-> list of ('ok', tree) | ('err', messages) | ('crash', why)"""
+    recs = yvlib.run_harness(binary, ["compile " + hx(s) for s in sources], case_timeout_ms=timeout_ms)
+    res = []
+    for r in recs:
+        rr = r.tagged("R")
+        if r.crashed:
+            res.append(("crash", r.crashed))
+        elif rr and rr[0][0] == "ok":
+            trees, _ = parse_trees(r.lines)
+            res.append(("ok", trees[0]))
+        elif rr and rr[0][0] == "err":
+            res.append(("err", r.messages))
+        elif rr and rr[0][0] == "panic":
+            res.append(("crash", "panic " + r.result[1][:200]))
+        else:
+            res.append(("crash", "no result"))
+    return res
+
+
+def line_table_ok(tree):
+    return all(fn is None or len(fn.lines) == len(fn.code) for fn in tree)
+
+
+def judge(items, tag):
+    """runs the proved verifier on every item, classifies every flagged function; fills item fields"""
+    terms = []
+    for it in items:
+        w, it.fns, it.ren = wire_with(it.tree)
+        terms.append(('run_report "%s"%%string' % w, len(w) // 2))
+    vals = coq_reports(terms, tag)
+    pending = []
+    for it, v in zip(items, vals):
+        if v is None or v == "PARSE-ERROR" or ";" not in v:
+            it.head = {"ALL": "?", "error": v}
+            continue
+        head, body = v.split(";", 1)
+        it.head = dict(kv.split("=") for kv in head.split(" "))
+        it.verdicts = [parse_verdict(x) for x in body.split("|")]
+        for k, (fn, vd) in enumerate(zip(it.fns, it.verdicts)):
+            if vd["kind"] != "OK":
+                pending.append((it, k, fn, vd))
+    # second round: byte-level repairs of the classes being fixed
+    terms2, owners = [], []
+    for (it, k, fn, vd) in pending:
+        for classes, code in repair_variants(fn, it.tree):
+            w, _, _ = wire_with(it.tree, {fn.idx: code})
+            terms2.append(('run_report_fn %d "%s"%%string' % (k, w), len(w) // 2))
+            owners.append((len(owners), it, k, fn, vd, classes, code))
+    vals2 = coq_reports(terms2, tag + "_rep") if terms2 else []
+    by_flag = {}
+    for (ix, it, k, fn, vd, classes, code), v in zip(owners, vals2):
+        by_flag.setdefault((id(it), k), []).append((classes, code, parse_verdict(v) if v else None))
+    for (it, k, fn, vd) in pending:
+        cls = None
+        variants = by_flag.get((id(it), k), [])
+        for classes, code, v2 in variants:
+            if v2 and v2["kind"] == "OK":
+                cls = classes
+                break
+        if cls is None:
+            r = residual_class(fn.code, fn, it.tree, vd)
+            if r:
+                cls = (r,)
+        if cls is None:
+            for classes, code, v2 in variants:
+                if v2 is None:
+                    continue
+                r = residual_class(code, fn, it.tree, v2)
+                if r:
+                    cls = tuple(sorted(set(classes + (r,))))
+                    break
+        it.flags.append((k, fn, vd, cls))
+    return items
+
+
+def stmt_ranges(lines):
+    """line ranges [i, j] that form a brace-balanced statement (approximation good enough for shrinking)"""
+    res = []
+    for i in range(len(lines)):
+        d = 0
+        for j in range(i, len(lines)):
+            l = re.sub(r'"(?:[^"\\]|\\.)*"', '""', lines[j]) if "${" not in lines[j] else re.sub(r'"[^"]*"', '""', lines[j])
+            d += l.count("{") - l.count("}")
+            if d < 0:
+                break
+            if d == 0:
+                if lines[j].rstrip().endswith((";", "}")):
+                    res.append((i, j))
+                break
+    return res
+
+
+def shrink_source(src, fails, budget=30):
+    lines = src.split("\n")
+    changed = True
+    while changed and budget > 0:
+        changed = False
+        for (i, j) in sorted(stmt_ranges(lines), key=lambda r: r[0] - r[1]):
+            if budget <= 0:
+                break
+            cand = lines[:i] + lines[j + 1:]
+            if not cand:
+                continue
+            budget -= 1
+            if fails("\n".join(cand)):
+                lines = cand
+                changed = True
+                break
+    return "\n".join(lines)
